@@ -163,6 +163,48 @@ def run(rep):
                 rep.ok("V3-correlator", "%s correlator range (%s)" % (tag, br), want)
             else:
                 rep.violation("V3-correlator", "V3:correlator:" + br, R.fn_where(f), {"got": [[rn(R.key(x)) for x in c[1]] for c in got], "documented": want})
+        # the interior is computed exactly when it is non-empty: the only run-time condition (besides the option and the row
+        # loop) that dominates the correlator call of the output branch is `documented length >= 1`
+        rep.count("obligations:V3")
+        for c, p in R.find(f["body"], lambda x: x.get("k") == "Call" and x.get("op") == "()" and R.key(x["args"][0]) == f["params"][4]["name"]):
+            gs = R.guards(p)
+            if branch_of(gs, spec) != "output":
+                continue
+            want_len = spec_poly(spec["correlator"]["output"]["length"])
+            conds = []
+            for op, l, r in gs:
+                if "option" in (l + r) or "boundary_option" in (l + r):
+                    continue
+                lp, rp = R.poly_of_key(l, rn) if hasattr(R, "poly_of_key") else None, None
+                conds.append((op, rn(l), rn(r)))
+            # normalise each remaining guard to  P >= c  and drop the loop bounds (they mention y)
+            norm = []
+            for op, l, r in conds:
+                if _re.search(r"\by\b", l + " " + r):
+                    continue
+                norm.append((op, l, r))
+            detail = [" ".join(x) for x in norm]
+            A, B = "$0.width", "$1.size"
+            flat = lambda t: t.replace("(", "").replace(")", "").replace(" ", "")
+            rel, other = [], []
+            for op, l, r in norm:
+                fl, fr = flat(l), flat(r)
+                if (A in fl + fr) and (B in fl + fr):
+                    rel.append((op, fl, fr))
+                else:
+                    other.append((op, fl, fr))
+            benign = {("!=", B, "1"), ("!=", A, "0"), (">", A, "0"), ("<", "0", A)}      # 1-tap kernel is a plain copy; empty image
+            unknown = [x for x in other if x not in benign]
+            ok = len(rel) == 1 and rel[0] in ((">=", A, B), ("<=", B, A)) and not unknown
+            if unknown and len(rel) == 1 and rel[0] in ((">=", A, B), ("<=", B, A)):
+                rep.fail_analysis("V3 interior guard: unrecognised extra condition(s) %s dominate the correlator call" % unknown)
+                break
+            if ok:
+                rep.ok("V3-interior-guard", tag + ": interior computed iff width >= kernel size", detail)
+            else:
+                rep.violation("V3-interior-guard", "V3:interior guard", R.fn_where(f), {"conditions_dominating_the_correlator_call": detail, "documented": "$0.width() >= $1.size() (interior of length width+1-size is non-empty)",
+                                                                               "problem": "the fully covered outputs are skipped (or computed with a negative length) for some widths"})
+            break
         # advance of the destination iterator in the output branch
         adv = [rn(R.key(x)) for x, p in R.find(f["body"], lambda x: x.get("k") in ("CompoundAssign", "Call") and x.get("op") == "+=" and R.key(x.get("l") or x["args"][0]) == amap.get("it_dst", "it_dst"))]
         rep.count("obligations:V3")
